@@ -315,6 +315,126 @@ def check_hmac(ck_ob, mod, label):
 
 
 # ---------------------------------------------------------------------------
+def _scalar_local(f, ob, off, n):
+    if ob[0] == "alloca" and off == 0 and isinstance(ob[1], int):
+        A_ = f.insts[ob[1]]
+        return A_.get("alloc_ty") in ("i8", "i16", "i32", "i64") and A_.get("alloc_size") == n
+    return False
+
+
+def check_hkdf_small(ck_ob, mod, label, thorough=False):
+    """tinyjambu_hkdf_expand as straight paths: buffer position x block counter in {0, 1, 2, 254, 255} x EVERY outlen up to a bound - position,
+    counter and length concrete, data symbolic, HMAC uninterpreted.  Compared with the sequential reference: left-over bytes first, then
+    T(n) = HMAC(PRK, T(n-1) | info | n) block by block (transcript of HMAC calls and the bytes they are given), min(32, remaining) bytes
+    of each block handed out, the 8-bit counter incremented per block, refusal with zero fill and -1 when the counter is 0.  Whatever
+    the loop structure; a refuter only (nothing beyond the bound is covered)"""
+    ST = ("arg", 0)
+    fld = {m["name"]: m for m in mod.composites["tinyjambu_hkdf_state_p_t"]["members"]}
+    PRK, OUTF, CNT, POSN = fld["prk"]["offset"], fld["out"]["offset"], fld["counter"]["offset"], fld["posn"]["offset"]
+    if fld["counter"]["size"] != 1 or fld["posn"]["size"] != 1:
+        return 0            # reported by the counter-width obligation of the per-class rule
+    f = mod.fn("tinyjambu_hkdf_expand")
+    w0 = relpath("%s:%d" % (f.file, f.line))
+    INFO, INFOLEN = repr(Lf.s(("arg", f.param_index("info")))), repr(Lf.s(("n", f.param_index("infolen"))))
+    OUTP = ("arg", f.param_index("out"))
+    oi = f.param_index("outlen")
+    icells = lambda ob, off, n: (ob == ST and (off, n) in ((CNT, 1), (POSN, 1))) or _scalar_local(f, ob, off, n)
+    posns = list(range(33)) if thorough else [0, 1, 15, 16, 31, 32]
+    bad = None
+    npaths = 0
+    for pz in posns:
+        top = 100 if (thorough and pz in (0, 16, 31, 32)) or (not thorough) else 40
+        for c0 in (0, 1, 2, 254, 255):
+            for L in range(top + 1):
+                def setup(ex_, path, pz=pz, c0=c0):
+                    path.lfmem[(ST, POSN, 1)] = Lf.c(pz)
+                    path.lfmem[(ST, CNT, 1)] = Lf.c(c0)
+                    path.start_lfmem = dict(path.lfmem)
+                ex = irx.Exec(f, Handler(), havoc="auto", auto=True, int_cells=icells, starts=[("s", setup)], split_max=33, arg_consts={oi: L})
+                ps = ex.run(max_paths=50)
+                if len(ps) != 1 or ps[0].end[0] != "ret":
+                    raise Broken("tinyjambu_hkdf_expand: with position %d, counter %d and outlen %d the function is not one straight path (%d paths): not decided by the small-length rule" % (pz, c0, L, len(ps)))
+                p = ps[0]
+                if any(e[0] in ("cond-data", "load-unknown", "store-unknown", "load-sym", "out-sym", "read-uninit") for e in p.events):
+                    raise Broken("tinyjambu_hkdf_expand: with position %d, counter %d and outlen %d the path has accesses or data branches the evaluation does not resolve" % (pz, c0, L))
+                npaths += 1
+
+                def sbyte(off_, start=True, p=p):
+                    cell = (p.start_mem if start else p.mem).get((ST, off_))
+                    return tuple(cell) if cell is not None else tuple(gf2.sym_word(("mem", ST, off_), 8))
+                prk = tuple(sbyte(PRK + k) for k in range(32))
+                block = [sbyte(OUTF + k) for k in range(32)]
+                want_out = {}
+                take = min(32 - pz, L)
+                for k in range(take):
+                    want_out[k] = block[pz + k]
+                posn, rem, off, c, rc = pz + take, L - take, take, c0, 0
+                script = []
+                evs = [e for e in p.events if e[0] in ("CALL", "VARMEM") and not (e[0] == "CALL" and e[2] == "tinyjambu_clean" and str(e[3][0]).startswith("alloca"))]
+                macs = [e for e in evs if e[0] == "CALL" and e[2] == "tinyjambu_hmac_finalize"]
+                bi = 0
+                while rem > 0:
+                    if c == 0:
+                        for k in range(rem):
+                            want_out[off + k] = tuple(gf2.ZERO for _ in range(8))
+                        rc = -1
+                        break
+                    script.append(("tinyjambu_hmac_init", prk, None))
+                    if c != 1:
+                        script.append(("tinyjambu_hmac_update", tuple(block), None))
+                    script.append(("tinyjambu_hmac_update", None, (INFO, INFOLEN)))
+                    script.append(("tinyjambu_hmac_update", (tuple(gf2.const_word(c, 8)),), None))
+                    script.append(("tinyjambu_hmac_finalize", prk, None))
+                    script.append(("tinyjambu_hmac_free", None, None))
+                    if bi < len(macs):
+                        block = list(bytes_sym("MAC", macs[bi][1], 32))
+                    bi += 1
+                    c = (c + 1) & 0xFF
+                    nb = min(32, rem)
+                    for k in range(nb):
+                        want_out[off + k] = tuple(block[k])
+                    posn, off, rem = nb, off + nb, rem - nb
+                why = None
+                calls_ = [e for e in evs if e[0] == "CALL"]
+                varm = [e for e in evs if e[0] == "VARMEM"]
+                if varm:
+                    raise Broken("tinyjambu_hkdf_expand: a copy or fill of undetermined length although position, counter and outlen are concrete: not decided by the small-length rule")
+                if [e[2] for e in calls_] != [x[0] for x in script]:
+                    why = "the HMAC calls are %s, RFC 5869 has %s" % ([e[2].replace("tinyjambu_hmac_", "") for e in calls_][:14], [x[0].replace("tinyjambu_hmac_", "") for x in script][:14])
+                else:
+                    for e, (nm, data, argsw) in zip(calls_, script):
+                        if data is not None and (e[4] is None or tuple(tuple(b) for b in e[4]) != tuple(tuple(b) for b in data)):
+                            why = why or "%s is given other bytes than RFC 5869 specifies at this point (PRK / previous block / counter byte)" % nm
+                        if argsw is not None and tuple(e[3][1:3]) != argsw:
+                            why = why or "the info update is (%s, %s), expected (info, infolen)" % tuple(e[3][1:3])
+                outs = mode.outs_of(p)
+                if why is None:
+                    for k in range(L):
+                        got = outs.get((OUTP, k))
+                        if got is None or tuple(got) != tuple(want_out[k]):
+                            why = "output byte %d is %s, expected %s" % (k, gf2.describe(got[0]) if got else "not written", gf2.describe(want_out[k][0]) if want_out[k][0] is not gf2.TOP else "?")
+                            break
+                if why is None and [k_ for k_ in outs if k_[0] == OUTP and not 0 <= k_[1] < L]:
+                    why = "writes outside out[0, outlen)"
+                rv = ex.subst(p, p.end[1]).const() if (p.end[1] is not None and not is_word(p.end[1])) else None
+                if why is None and (rv is None or (rv & 0xFFFFFFFF) != (rc & 0xFFFFFFFF)):
+                    why = "returns %s, expected %d" % (rv, rc)
+                if why is None and rc == 0:
+                    if p.lfmem.get((ST, CNT, 1)) != Lf.c(c):
+                        why = "block counter becomes %s, expected %d" % (p.lfmem.get((ST, CNT, 1)), c)
+                    elif p.lfmem.get((ST, POSN, 1)) != Lf.c(posn):
+                        why = "buffer position becomes %s, expected %d" % (p.lfmem.get((ST, POSN, 1)), posn)
+                    elif bi and tuple(sbyte(OUTF + k, False) for k in range(32)) != tuple(tuple(b) for b in block):
+                        why = "the state's block buffer does not hold the last block generated when the call returns"
+                if why is not None and bad is None:
+                    bad = ((pz, c0, L), why)
+    ck_ob(bad is None, "SMALL", f.name, "expand-small[%s]" % label,
+          "buffer position x counter in {0,1,2,254,255} x every outlen up to 100 (%d straight paths): left-over bytes, the HMAC transcript of every block, the bytes handed out, counter, position, "
+          "refusal at counter 0 and the block kept in the state are those of RFC 5869 with an 8-bit counter" % npaths,
+          "with position %s, counter %s, outlen %s: %s" % (bad[0] + (bad[1],) if bad else ("?", "?", "?", "")), w0)
+    return 1
+
+
 # HKDF (RFC 5869 over TinyJAMBU-HMAC, 32-byte blocks, 8-bit block counter)
 
 def check_hkdf(ck_ob, mod, label):
